@@ -98,6 +98,13 @@ pub fn snapshot_filter(f: &Filter) -> Result<FParsed, String> {
     if ids.len() != f.num_ids() || authors.len() != f.num_authors() || kinds.len() != f.num_kinds() {
         return Err("INCONSISTENT: iterator lengths disagree with num_*()".into());
     }
+    crate::model::iter_protocol("Filter::ids()", || f.ids(), |i| i.as_slice().to_vec(), &ids)?;
+    crate::model::iter_protocol("Filter::authors()", || f.authors(), |i| i.as_slice().to_vec(), &authors)?;
+    crate::model::iter_protocol("Filter::kinds()", || f.kinds(), |k| k.as_u16(), &kinds)?;
+    crate::model::iter_protocol("Filter::tags() tag iterator", || tags.iter(), |t| t.map(|s| s.to_vec()).collect::<Vec<_>>(), &tv)?;
+    if let Some(want) = tv.first() {
+        crate::model::iter_protocol("tag string iterator", || tags.iter().next().unwrap(), |s| s.to_vec(), want)?;
+    }
     Ok(FParsed {
         consumed: 0,
         outcount: f.len(),
